@@ -524,7 +524,12 @@ pub async fn run_cl(tok: &[&str]) -> String {
                 }
                 "W" => {
                     if let Some(h) = &io {
-                        h.fail_next_write(std::io::ErrorKind::BrokenPipe);
+                        // `Wi`: the write fails with Interrupted (same class: a write error ends the session)
+                        h.fail_next_write(if rest == "i" {
+                            std::io::ErrorKind::Interrupted
+                        } else {
+                            std::io::ErrorKind::BrokenPipe
+                        });
                     }
                 }
                 "A" => {
